@@ -337,6 +337,89 @@ def stress(ctx, n):
         judge(ctx, w, store, None, [], getattr(store, 'closed_with', None), {'stress': True, 'workload': w, 'fail_at': fail_at}, fail_at)
 
 
+def mutation_twin(ctx, n):
+    """Values are recorded by reference and serialized when the recording is saved: an object modified in place between set_data and
+    the save request is stored in its final state by the wrapped cassette. The same request sequence goes once directly into a real
+    cassette (memory / file / S3-on-fake) and once through the asynchronous wrapper around another one; the stored recordings
+    must be the same. Real threads, tiny flush interval, random pauses (so the flusher sometimes applies a write before the
+    modification and sometimes after)."""
+    from playback.tape_cassettes.asynchronous.async_record_only_tape_cassette import AsyncRecordOnlyTapeCassette
+    from vlib.cassettes import open_box
+    from vlib.values import teq, first_diff, Obj, recording_in_domain
+    rng = ctx.rng
+    for i in range(n):
+        kind = ('memory', 'file', 's3')[i % 3]
+        seed = rng.randrange(10 ** 9)
+
+        def drive(cassette, pause):
+            r = random.Random(seed)
+            ids = {}
+            for c in range(r.randrange(1, 3)):
+                rec = cassette.create_new_recording('Cat%d' % c)
+                ids['Cat%d' % c] = rec.id
+                shared = ['shared']
+                vals = []
+                for k in range(r.randrange(1, 4)):
+                    v = r.choice([lambda: ['created'], lambda: {'state': 'new', 'rows': [1]}, lambda: Obj(name='o', items=[]), lambda: (1, ['in-tuple']),
+                                  lambda: shared])()
+                    rec.set_data('key%d' % k, v)
+                    vals.append(v)
+                    pause(r)
+                rec.add_metadata({'m': c, 'tags': shared})
+                pause(r)
+                for v in vals:                # the operation goes on working with the objects it was handed
+                    if r.random() < 0.7:
+                        if isinstance(v, list):
+                            v.append('processed')
+                        elif isinstance(v, dict):
+                            v['state'] = 'done'
+                            v['rows'].append(2)
+                        elif isinstance(v, Obj):
+                            v.items.append('added')
+                        elif isinstance(v, tuple):
+                            v[1].append('more')
+                pause(r)
+                cassette.save_recording(rec)
+            return ids
+        fk = None
+        if kind == 's3':
+            from vlib.fakes3 import FakeS3
+            fk = FakeS3()
+
+        def pause_async(r):
+            x, y = r.random(), r.random()
+            if x < 0.6:
+                time.sleep([0, 0, 0.001, 0.004][int(y * 4)])
+        with open_box(kind, prefix='d', fake=fk) as direct, open_box(kind, prefix='a', fake=fk) as wrapped:
+            ids_d = drive(direct.cassette, lambda r: (r.random(), r.random()))
+            a = AsyncRecordOnlyTapeCassette(wrapped.cassette, flush_interval=rng.choice([0.0002, 0.002]), timeout_on_close=60)
+            a.start()
+            ids_a = drive(a, pause_async)
+            a.close()
+            ctx.case(('mutation_twin', kind, seed))
+            ctx.count('mutation_twin_runs')
+            rd, ra = direct.reader(), wrapped.reader()
+            for cat in ids_d:
+                try:
+                    x = rd.get_recording(ids_d[cat])
+                    dx = {k: x.get_data(k) for k in x.get_all_keys()}
+                    if not recording_in_domain(dx, {}):
+                        ctx.count('mutation_twin_out_of_serializer_domain')
+                        continue
+                    y = ra.get_recording(ids_a[cat])
+                    dy = {k: y.get_data(k) for k in y.get_all_keys()}
+                    mx, my = x.get_metadata(), y.get_metadata()
+                except Exception as ex:
+                    ctx.violation('recording stored through the asynchronous wrapper cannot be read back: %s' % type(ex).__name__,
+                                  {'mutation_twin': True, 'cassette': kind, 'seed': seed, 'category': cat, 'error': repr(ex)[:200]})
+                    continue
+                ctx.count('mutation_twin_recordings_compared')
+                if not teq(dx, dy) or not teq(mx.get('tags'), my.get('tags')):
+                    ctx.violation('recording stored through the asynchronous wrapper differs from the one stored directly (objects modified '
+                                  'in place between set_data and save)', {'mutation_twin': True, 'cassette': kind, 'seed': seed, 'category': cat,
+                                                                          'diff': first_diff(dx, dy)})
+
+
 def run(ctx):
     from playback.tape_cassettes.asynchronous.async_record_only_tape_cassette import AsyncRecordOnlyTapeCassette
     for a in ('_recording_loop', '_flush_recording', '_add_async_operation'):
@@ -392,11 +475,15 @@ def run(ctx):
     ctx.note('bounded_dfs_complete_for_all_workloads', all_complete)
     if ctx.shard == 0:
         stress(ctx, 100 if ctx.quick else 2000)
+    mutation_twin(ctx, ctx.budget(60, 3000))
     if not ctx.counters.get('operations_checked'):
         ctx.inconclusive('no operation was checked')
 
 
 def replay(ctx, wit):
+    if wit.get('mutation_twin'):
+        print('real-thread witness, re-run the check')
+        return
     if wit.get('stress'):
         print('stress witness, re-run the check')
         return
